@@ -11,7 +11,8 @@ from .frontend import gen_desc, desc_toks, render, split_desc, exp_tree, Desc
 
 
 def codes(s):
-    return [ord(c) for c in s]
+    """a text as the wire carries it: its UTF-8 bytes"""
+    return list(s.encode("utf-8"))
 
 
 # ------------------------------------------------------------------ implementation side
@@ -351,13 +352,10 @@ def run(prop, tier, replay=None):
             files = {"main.fcp": render(rng, desc_toks(rng, rd), "canon")}
             for rel, sub in mods.items():
                 files[rel] = render(rng, desc_toks(rng, sub), rng.choice(["canon", "wild"]))
-            files = {rel: (t if t.isascii() else t.encode("ascii", "replace").decode()) for rel, t in files.items()}
             cases.append({"text": "".join(f"// file {rel}\n{t}" for rel, t in sorted(files.items())), "files": files,
                           "declared": listing_declared(d)})
             continue
         text = render(rng, desc_toks(rng, d), rng.choice(["canon", "wild"]))
-        if not text.isascii():
-            text = text.encode("ascii", "replace").decode()  # the wire format carries 7-bit strings
         cases.append({"text": text, "via_cli": rng.random() < 0.25, "declared": listing_declared(d)})
     cases.append({"text": 'version: "3"\nstruct A {\n    x @ -1: u8,\n}\n'})  # recorded finding: negative field id
     cases.append({"text": 'version: "3"\nenum E {\n    A = -2147483648,\n}\nstruct S {\n    e @ 0: E,\n}\n'})  # recorded: signed-min
